@@ -269,6 +269,10 @@ func runPatterns(rep *kf.Reporter, tier string, st *patStats) error {
 					if !familyOK(true, permissive(wr.Fam)) {
 						report("error-family", "Windows-typed instance returned a value of family "+wr.Fam)
 					}
+
+					for _, what := range classFindings(c.Op, lr, wr) {
+						report("error-class", what)
+					}
 				case lr.Val != wr.Val:
 					report("value", "returned value of a successful read-only call differs")
 				}
